@@ -82,9 +82,11 @@ def check(run):
 
         if tag == 'tcp':
             run.clause('armed while non-empty: every path that queues an entry re-arms m_timer for the front entry')
+        ev_arm = lambda f: [c for c in f.calls() if (q.callee_name(c) or '').endswith('high_resolution_timer::expires_at') and q.render(f, c.get('obj')) == 'm_timer' and c.get('args') and q.render(f, c['args'][0]) == 'm_queue.front().completion_time']
+        ev_wait = lambda f: [c for c in f.calls() if q.callee_name(c) == handlers.TIMER_WAIT and q.render(f, c.get('obj')) == 'm_timer' and 'on_lookup' in q.render(f, c)]
         for site in inserts + appends:
-            arms = [c for c in ar.calls() if (q.callee_name(c) or '').endswith('high_resolution_timer::expires_at') and q.render(ar, c.get('obj')) == 'm_timer' and q.render(ar, c['args'][0]) == 'm_queue.front().completion_time']
-            waits = [c for c in ar.calls() if q.callee_name(c) == handlers.TIMER_WAIT and q.render(ar, c.get('obj')) == 'm_timer' and 'on_lookup' in q.render(ar, c)]
+            arms = q.sites(ar, ev_arm)      # directly or inside a helper called on this resolver
+            waits = q.sites(ar, ev_wait)
             run.check(q.must_follow(ar, site, arms) and q.must_follow(ar, site, waits), 'R10', 'resolver-timer', '%s<%s>' % (ar.norm, tag), ar.loc(site), 'an entry is queued without m_timer being armed for m_queue.front() and waited on with on_lookup', 'expires_at(front) + async_wait(on_lookup) follow')
 
         if tag == 'tcp':
@@ -132,7 +134,7 @@ def check(run):
         tk = [v for n in ol.all_nodes() if n['k'] == 'decl' for v in n['vars'] if 'm_queue.front()' in q.render(ol, v.get('init'))]
         run.check(len(tk) == 1, 'R2k', 'serve-front', '%s<%s>' % (ol.norm, tag), ol.loc(), 'the entry served is not the front one', 'serves front()')
         inv = [f for f in handlers.flows_in(fx, ol) if f.kind == 'invoke']
-        arms = [c for c in ol.calls() if (q.callee_name(c) or '').endswith('high_resolution_timer::expires_at') and q.render(ol, c['args'][0]) == 'm_queue.front().completion_time']
+        arms = q.sites(ol, lambda f: [c for c in f.calls() if (q.callee_name(c) or '').endswith('high_resolution_timer::expires_at') and c.get('args') and q.render(f, c['args'][0]) == 'm_queue.front().completion_time'])
         rets = [r for r in q.returns(ol) if any(q.render(ol, a) in ('empty', 'm_queue.empty()') and p for a, p in q.guards_at(ol, r))]
         run.check(bool(inv) and all(q.must_follow(ol, f.site, arms + rets) for f in inv), 'R10', 'resolver-timer', '%s<%s>' % (ol.norm, tag), ol.loc(), 'after serving an entry the timer is not re-armed for the next one on every path where the queue is non-empty', 're-armed unless empty')
         ed = [v for n in ol.all_nodes() if n['k'] == 'decl' for v in n['vars'] if v.get('name') == 'empty']
@@ -162,5 +164,5 @@ def check(run):
     for f in fx.fn(R + '::~basic_resolver', required=False):
         cs = [c for c in f.calls() if (q.callee_name(c) or '').endswith('basic_resolver::cancel')]
         run.check(bool(cs) and q.on_all_paths(f, cs), 'R4', 'dtor-aborts', f.name, f.loc(), 'destructor does not call cancel()', 'destructor calls cancel()')
-    run.floor('R4', 8)
-    run.floor('R2k', 8)
+    run.floor('R4', 5)
+    run.floor('R2k', 5)
